@@ -363,6 +363,8 @@ class Contract:
         self.clause_props: Dict[str, Sequence[str]] = getattr(cls, "clause_props", {})
         self.never_raises: Sequence[str] = getattr(cls, "never_raises", ())
         self.ghost_specs: Dict[str, Callable] = getattr(cls, "ghost_specs", {})
+        self.runtime_checkable: bool = bool(getattr(cls, "runtime_checkable", False))
+        self.case_posts: Dict[int, Sequence[str]] = getattr(cls, "case_posts", {})
 
     def clauses_for(self, prop: Optional[str]) -> Optional[List[str]]:
         """names of the clauses that serve property `prop` (None = all); a clause without an entry in `clause_props`
